@@ -43,6 +43,7 @@ var fullName = map[string]string{
 	"Unrelated": "pkg.Unrelated", "MapVal": "pkg.MapVal", "Ext": "pkg.Ext", "ExtVal": "pkg.ExtVal", "ext_field": "pkg.ext_field",
 	"WithOpt": "pkg.WithOpt", "Svc": "pkg.Svc", "Get": "pkg.Svc.Get", "Other": "pkg.Svc.Other", "Lonely": "pkg.Lonely",
 	"OptMsg": "opts.OptMsg", "msg_opt": "opts.msg_opt", "field_opt": "opts.field_opt", "pkg": "pkg", "opts": "opts",
+	"WithOpt2": "pkg.WithOpt2", "UsesKind": "pkg.UsesKind", "Payload": "pkg.Payload", "Holder": "opts.Holder", "any_opt": "opts.any_opt", "WithAny": "pkg.WithAny",
 }
 
 var sources = map[string]string{
@@ -136,6 +137,32 @@ message Lonely {
   optional string l = 1;
 }
 `,
+	"b.proto": `syntax = "proto2";
+package pkg;
+import "opts.proto";
+import "a.proto";
+// c:pkg.WithOpt2
+message WithOpt2 {
+  // c:pkg.WithOpt2.w2
+  optional string w2 = 1 [(opts.field_opt) = "g"];
+}
+// c:pkg.UsesKind
+message UsesKind {
+  // c:pkg.UsesKind.k
+  optional Detail.Kind k = 1;
+}
+// c:pkg.Payload
+message Payload {
+  // c:pkg.Payload.p
+  optional string p = 1;
+}
+// c:pkg.WithAny
+message WithAny {
+  option (opts.any_opt) = { extra: [ { type_url: "types.example.com/schemas/v1/pkg.Payload" value: "\x0a\x01x" } ] };
+  // c:pkg.WithAny.a
+  optional string a = 1;
+}
+`,
 	"notypes.proto": `syntax = "proto2";
 package pkg;
 option java_package = "com.example.notypes";
@@ -143,6 +170,7 @@ option java_package = "com.example.notypes";
 	"opts.proto": `syntax = "proto2";
 package opts;
 import "google/protobuf/descriptor.proto";
+import "google/protobuf/any.proto";
 // c:opts.OptMsg
 message OptMsg {
   // c:opts.OptMsg.note
@@ -155,6 +183,15 @@ extend google.protobuf.MessageOptions {
 extend google.protobuf.FieldOptions {
   // c:opts.field_opt
   optional string field_opt = 50002;
+}
+// c:opts.Holder
+message Holder {
+  // c:opts.Holder.extra
+  repeated google.protobuf.Any extra = 1;
+}
+extend google.protobuf.MessageOptions {
+  // c:opts.any_opt
+  optional Holder any_opt = 50003;
 }
 `,
 }
@@ -348,7 +385,13 @@ func run(in []byte) (*reg.Result, error) {
 					sort.Strings(gotNames)
 					want := names(c.Survive)
 					if strings.Join(gotNames, ",") != strings.Join(want, ",") {
-						res.Violate("elements/"+sig, caseInfo, "surviving elements differ:\n got %v\nwant %v", gotNames, want)
+						esig := "elements/" + sig
+						for _, x := range c.Exclude {
+							if (x == "OptMsg" || x == "Holder") && c.CustomOptions {
+								esig = "elements/custom-option-value-type-excluded"
+							}
+						}
+						res.Violate(esig, caseInfo, "surviving elements differ:\n got %v\nwant %v", gotNames, want)
 						continue
 					}
 					for _, f := range c.Fields {
@@ -411,7 +454,7 @@ func run(in []byte) (*reg.Result, error) {
 							if string(a) != string(b) {
 								isig := "not-idempotent/" + sig
 								for _, x := range c.Exclude {
-									if x == "OptMsg" && c.CustomOptions {
+									if (x == "OptMsg" || x == "Holder") && c.CustomOptions {
 										// the message type of a custom option that a surviving element uses is excluded
 										isig = "not-idempotent/custom-option-value-type-excluded"
 									}
